@@ -421,6 +421,11 @@ void Polygon::apply_repetition(Array<Polygon*>& result) {
     Array<Vec2> offsets = {};
     repetition.get_offsets(offsets);
     repetition.clear();
+    if (offsets.count < 2) {
+        // Nothing to copy (a lattice with 0 columns or rows enumerates no offsets)
+        offsets.clear();
+        return;
+    }
 
     // Skip first offset (0, 0)
     Vec2* offset_p = offsets.items + 1;
